@@ -147,6 +147,25 @@ def judge_case(pr, c, hashes, st):
             out.append(("panic@" + base[1].split(":")[0], "baseline panicked: %s" % base[1]))
         return out
     v0 = base[2]
+    if "--tag-version" in c["common"]:
+        tv = c07.vars_from_tag(c["common"][c["common"].index("--tag-version") + 1])
+        if tv is not None:
+            st["start_state_checks"] = st.get("start_state_checks", 0) + 1
+            for k in ("epoch", "major", "minor", "patch", "pre_release", "post", "dev"):
+                g = v0.get(k)
+                g = tuple(g) if isinstance(g, list) else g
+                if g != tv[k]:
+                    out.append(("start-version-differs-from-tag", "--tag-version gives %s=%r, the tag denotes %r" % (k, g, tv[k])))
+                    return out
+            # context overrides must arrive unchanged
+            want_d = None
+            if "--distance" in c["common"]:
+                want_d = int(c["common"][c["common"].index("--distance") + 1])
+            if want_d is not None and v0.get("distance") != want_d:
+                out.append(("context-override-not-applied", "--distance %d gives distance=%r" % (want_d, v0.get("distance"))))
+            for a_ in c["common"]:
+                if a_.startswith("--bumped-branch=") and v0.get("bumped_branch") != a_.split("=", 1)[1]:
+                    out.append(("context-override-not-applied", "%s gives bumped_branch=%r" % (a_, v0.get("bumped_branch"))))
     rules = F.DEFAULT_RULES if c["rules"] is None else c["rules"]
     branch = v0.get("bumped_branch")
     exp = F.law(v0, c["opts"], rules, NOW)
